@@ -17,6 +17,9 @@ import EaselModel.Msafile.ClustalIdem
 import EaselModel.Msafile.ClustalLemmas
 import EaselModel.Msafile.PsiblastIdem
 import EaselModel.Msafile.PsiblastLemmas
+import EaselModel.Msafile.GuessWritten
+import EaselModel.Msafile.SelexAnnRoundTrip
+import EaselModel.Msafile.StoIdem
 /-! # C03 — writing an alignment and reading it back preserves it: property theorems
 
 Full statement (properties.jsonl): for every well-formed alignment, writing it in any of the ten formats and reading the
@@ -258,10 +261,16 @@ the annotation `StoAnn` admits (Stage 4.1 + the first half of 4.2):
 blank/tab/NUL/LF, not beginning with `#` nor `//`; text residues graphic; digital rows well formed.
 `stoProject` = the alignment itself (ALL annotation fields unchanged) with the rows in the reader's mode and default weights.
 
-PARTIAL with respect to the full statement ("Stockholm and Pfam preserve all of it"): `StoAnn` still demands
-`comments = []`, `gf = []` (unparsed #=GF), `gc = []` (unparsed #=GC), no #=GS (`sqacc sqdesc gs`), no #=GR (`ss sa pp gr`),
-no weights, no cut-offs: Stages 4.2b–4.5 are not covered by a theorem (weights/cut-offs can only be stated up to the numeric
-value, which the reader model does not carry).  The executable check covers all of them. -/
+  * comment lines: no NUL/LF, not beginning with white space (the reader strips it), not ending in CR, and `#`+comment not
+    beginning with `#=GF`, `#=GS`, `#=GC`, `#=GR` (`comOk`); unparsed `#=GF` tags: the tag a token other than
+    `ID AC DE AU GA NC TC`, the value free text (`gfTagOk`, `gfTextOk`); score cut-offs `GA NC TC`: finite values
+    (`finiteF32`; `inf`/`nan` are printed and then rejected by the reader).
+`stoProject` = the alignment itself with the rows in the reader's mode, default weights, and of the cut-offs which are set.
+
+PARTIAL with respect to the full statement ("Stockholm and Pfam preserve all of it"): `StoAnn` still demands `gc = []`
+(unparsed #=GC), no #=GS (`sqacc sqdesc gs`), no #=GR (`ss sa pp gr`), no weights: Stages 4.3–4.5 are not covered by a
+theorem; the numeric VALUE of weights/cut-offs is not in the reader model.  The executable check covers all of them
+(field-by-field comparison on the real library, values included). -/
 
 theorem stockholm_write_deterministic (pfam : Bool) (abc : Option Abc) (m₁ m₂ : Msa) (h : m₁ = m₂) :
     stockholmWrite pfam abc m₁ = stockholmWrite pfam abc m₂ := by rw [h]
@@ -334,6 +343,53 @@ theorem stockholm_roundtrip_gc_gf (pfam : Bool) (abc : Option Abc) (cfg : Cfg) (
     (stoProject cfg m).acc = m.acc ∧ (stoProject cfg m).desc = m.desc ∧ (stoProject cfg m).au = m.au :=
   ⟨stoRead_write pfam abc cfg enc txt m h, rfl, rfl, rfl, rfl, rfl, rfl, rfl, rfl, rfl⟩
 
+/-- **the whole header section** (Stage 4.2b): comment lines, unparsed `#=GF` tags (in order, repeated tags kept apart) and
+    the score cut-offs come back.  Of a cut-off the reader MODEL keeps whether it is set, not its value (the harness compares
+    the values): what is set after the round trip is each first threshold that was set and each second threshold whose
+    first was set too - `stockholm_write` prints `#=GF GA x y` or `#=GF GA x` and never a second threshold alone. -/
+theorem stockholm_roundtrip_header (pfam : Bool) (abc : Option Abc) (cfg : Cfg) (enc : UInt8 → UInt8) (txt : Nat → Bytes) (m : Msa)
+    (h : StoWritable abc cfg enc txt m) :
+    stockholmRead cfg (splitLines (stockholmWrite pfam abc m)) = (.ok (stoProject cfg m), []) ∧
+    (stoProject cfg m).comments = m.comments ∧ (stoProject cfg m).gf = m.gf ∧
+    (stoProject cfg m).cutoff.map Option.isSome
+      = (if (cutsetOf m).any id then cutsetOf m else []) ∧
+    cutsetOf m = [(m.cutoff.getD 0 none).isSome, (m.cutoff.getD 0 none).isSome && (m.cutoff.getD 1 none).isSome,
+                  (m.cutoff.getD 2 none).isSome, (m.cutoff.getD 2 none).isSome && (m.cutoff.getD 3 none).isSome,
+                  (m.cutoff.getD 4 none).isSome, (m.cutoff.getD 4 none).isSome && (m.cutoff.getD 5 none).isSome] := by
+  refine ⟨stoRead_write pfam abc cfg enc txt m h, rfl, rfl, ?_, cutsetOf_eq m⟩
+  show (if (cutsetOf m).any id then (cutsetOf m).map (fun b => if b then some (0 : UInt32) else none) else []).map Option.isSome = _
+  split
+  · rw [List.map_map]
+    conv => rhs; rw [← List.map_id (cutsetOf m)]
+    apply List.map_congr_left
+    intro b _; cases b <;> rfl
+  · rfl
+
+/-- **re-writing the re-read alignment reproduces the same bytes**, Stockholm and Pfam, general form: for ANY annotation
+    (per-sequence `#=GS`/`#=GR` and unparsed tags included) as long as there are no weights and no cut-offs - the two fields
+    whose numeric value the reader MODEL does not carry (with them the statement is about `strtod ∘ printf`, which the harness
+    checks on the real library: `rw=same`) -/
+theorem stockholm_rewrite_same (pfam : Bool) (abc : Option Abc) (cfg : Cfg) (m : Msa) (hw : m.hasw = false) (hc : m.cutoff = [])
+    (hd : cfg.digital = m.digital) (ha : abc.isSome = m.digital) :
+    stockholmWrite pfam abc (stoProject cfg m) = stockholmWrite pfam abc m :=
+  stockholmWrite_project pfam abc cfg m hw hc hd ha
+
+/-- … text mode -/
+theorem stockholm_rewrite_same_text (pfam : Bool) (m : Msa) (h : StoTextWritable m) (hc : m.cutoff = []) :
+    stockholmWrite pfam none (stoProject (stockholmCfg none) m) = stockholmWrite pfam none m :=
+  stockholmWrite_project pfam none (stockholmCfg none) m h.ann.hasw hc (by rw [h.dig]; rfl) (by rw [h.dig]; rfl)
+
+/-- … digital mode (amino, DNA, RNA) -/
+theorem stockholm_rewrite_same_digital (pfam : Bool) (a : Abc) (m : Msa) (h : StoDigitalWritable a m) (hc : m.cutoff = []) :
+    stockholmWrite pfam (some a) (stoProject (stockholmCfg (some a)) m) = stockholmWrite pfam (some a) m :=
+  stockholmWrite_project pfam (some a) (stockholmCfg (some a)) m h.ann.hasw hc (by rw [h.dig]; rfl) (by rw [h.dig]; rfl)
+
+/-- `printf("%.1f")` of a finite single-precision value is a token the cut-off parser accepts (`esl_mem_IsReal`) -/
+theorem cutoff_token_accepted (b : UInt32) (h : finiteF32 b) : memIsReal (fmtF1 b) = true := (fmtF1_realTok b h).real
+
+/-- … and the hypothesis is needed: an infinite cut-off is printed as `inf`, which the reader rejects -/
+example : fmtF1 0x7f800000 = str "inf" ∧ memIsReal (fmtF1 0x7f800000) = false := by decide +kernel
+
 /-! ### non-vacuity -/
 
 /-- names "a", "bb"; rows "AC-GT", "ACGTT" -/
@@ -379,15 +435,19 @@ example : (blockStarts exSto201.alen (stoCpl false exSto201)).length = 2 := by d
 example : stockholmRead (stockholmCfg none) (splitLines (stockholmWrite false none exSto201))
     = (.ok (stoProject (stockholmCfg none) exSto201), []) := by decide +kernel
 
-/-- 2 sequences, 201 columns (two Stockholm blocks) with `#=GC SS_cons`, `#=GC RF`, `#=GF ID`, `#=GF DE` ("a b") -/
+/-- 2 sequences, 201 columns (two Stockholm blocks) with `#=GC SS_cons`, `#=GC RF`, `#=GF ID`, `#=GF DE` ("a b"), two comment
+    lines (the second empty), `#=GF TC 25.0 20.5`, `#=GF GA 21.0`, and the unparsed tags `CC` ("some text") and `DR` (empty) -/
 def exStoAnn : Msa :=
   { exSto201 with ssCons := some (List.replicate 150 60 ++ List.replicate 51 62), rf := some (List.replicate 201 120),
-                  name := some [105, 100], desc := some [97, 32, 98] }
+                  name := some [105, 100], desc := some [97, 32, 98],
+                  comments := [str "made by hand", []],
+                  cutoff := [some 0x41C80000, some 0x41A40000, some 0x41A80000, none, none, none],
+                  gf := [(str "CC", str "some text"), (str "DR", [])] }
 
 theorem exStoAnn_writable : StoTextWritable exStoAnn :=
   { dig := rfl
     ann :=
-      { hasw := rfl, sqacc := rfl, sqdesc := rfl, ss := rfl, sa := rfl, pp := rfl, cutoff := rfl, gs := rfl, gc := rfl, gr := rfl
+      { hasw := rfl, sqacc := rfl, sqdesc := rfl, ss := rfl, sa := rfl, pp := rfl, gs := rfl, gc := rfl, gr := rfl
         cons_ok := fun k s hs => by
           rcases k with _ | _ | _ | _ | _ | _
           · cases hs; unfold colTextOk; decide +kernel
@@ -400,14 +460,39 @@ theorem exStoAnn_writable : StoTextWritable exStoAnn :=
         acc_ok := fun v hv => by cases hv
         desc_ok := fun v hv => by cases hv; unfold gfTextOk; decide +kernel
         au_ok := fun v hv => by cases hv
-        comments := rfl, gf := rfl }
+        cut_ok := fun k v hv => by
+          rcases k with _ | _ | _ | _ | _ | _ | k
+          · cases hv; unfold finiteF32; decide +kernel
+          · cases hv; unfold finiteF32; decide +kernel
+          · cases hv; unfold finiteF32; decide +kernel
+          · cases hv
+          · cases hv
+          · cases hv
+          · cases hv
+        com_ok := fun c hc => by
+          have : c = str "made by hand" ∨ c = [] := by simpa [exStoAnn] using hc
+          rcases this with rfl | rfl <;> (unfold comOk; decide +kernel)
+        gf_ok := fun t ht => by
+          have : t = (str "CC", str "some text") ∨ t = (str "DR", []) := by simpa [exStoAnn] using ht
+          rcases this with rfl | rfl <;> (unfold gfTagOk gfTextOk nameOk; decide +kernel) }
     n1 := by decide, alen1 := by decide, nodup := by decide
     name_ok := by unfold stoNameOk nameOk; decide +kernel
     row_ok := by decide +kernel }
 
 example : stockholmRead (stockholmCfg none) (splitLines (stockholmWrite false none exStoAnn))
     = (.ok (stoProject (stockholmCfg none) exStoAnn), []) := by decide +kernel
-example : stoProject (stockholmCfg none) exStoAnn = exStoAnn := by decide +kernel
+/-- everything comes back except the numeric value of the cut-offs, which the reader MODEL does not carry -/
+example : { stoProject (stockholmCfg none) exStoAnn with cutoff := exStoAnn.cutoff } = exStoAnn := by decide +kernel
+example : (stoProject (stockholmCfg none) exStoAnn).cutoff = [some 0, some 0, some 0, none, none, none] := by decide +kernel
+example : (stockholmLines false none exStoAnn).take 10 =
+    [str "# STOCKHOLM 1.0", str "#made by hand", str "#", [], str "#=GF ID id", str "#=GF DE a b", str "#=GF GA 21.0",
+     str "#=GF TC 25.0 20.5", str "#=GF CC some text", str "#=GF DR "] := by decide +kernel
+
+/-- re-writing: the annotated example without its cut-offs gives the same bytes; with them the MODEL's re-read alignment has
+    lost the values (the real library has not: the harness compares `rw=same` on every case) -/
+example : stockholmWrite false none (stoProject (stockholmCfg none) { exStoAnn with cutoff := [] })
+    = stockholmWrite false none { exStoAnn with cutoff := [] } := by decide +kernel
+example : stockholmWrite false none (stoProject (stockholmCfg none) exStoAnn) ≠ stockholmWrite false none exStoAnn := by decide +kernel
 
 /-! ## ===== STOCKHOLM/PFAM — end ===== -/
 
@@ -421,8 +506,8 @@ beginning with `#` (`selexNameOk`); text residues graphic (so: no white space - 
 well formed.  `selexProject` = names, rows in the reader's mode, `#=CS`/`#=RF`/`#=MM` as they are, per-sequence `#=SS`/`#=SA`
 as the reader rebuilds them (no array when no sequence has one), default weights.
 
-PARTIAL with respect to the full statement: `selexProject` is stated for annotated alignments too, but the theorems assume
-`SelexPlain` (stage 4, the annotation lines, is covered by the concrete `example` below and by the executable check only). -/
+The theorems of THIS section assume `SelexPlain`; the annotation lines (stage 4) are covered by the section SELEX-ANN
+further down (`selex_roundtrip_ann_text`, `selex_roundtrip_ann_digital`, …), which generalises them. -/
 
 theorem selex_write_deterministic (abc : Option Abc) (m₁ m₂ : Msa) (h : m₁ = m₂) : selexWrite abc m₁ = selexWrite abc m₂ := by rw [h]
 
@@ -966,5 +1051,309 @@ example : (psiblastProject (psiblastCfg (some abcDna)) (psiRf (psiDigTxt abcDna 
   decide +kernel
 
 /-! ## ===== CLUSTAL / PSI-BLAST — end ===== -/
+
+/-! ## ===== SELEX-ANN — begin ===== -/
+
+/-! SELEX round trip WITH the annotation SELEX carries: `#=CS` (`ssCons`), `#=RF` (`rf`), `#=MM` (`mm`), per-sequence `#=SS`
+(`ss[i]`) and `#=SA` (`sa[i]`), each independently present or absent (per sequence for SS/SA), any number of 60-column
+blocks, text and digital mode.  `SelexAnnTextWritable` / `SelexAnnDigitalWritable` = the conditions of `SelexTextWritable` /
+`SelexDigitalWritable` on names and rows, with `SelexPlain` replaced by `SelexAnn`: every annotation string present has one
+character per column (`length = alen`) and holds no white space and no NUL (`annStrOk`).  (The reader copies annotation
+characters unchanged, but takes leading and trailing white space of a 60-column chunk for padding: it comes back as `.`;
+so white space is excluded, which is slightly stronger than needed: white space strictly inside every chunk would survive.)
+The name field is `max 4 (longest name)` wide, so the 4-character tags `#=XX` fit also when every name is shorter.
+`selexProject` says what comes back: names, rows, `ssCons`/`rf`/`mm` as they are, `ss`/`sa` as arrays of `nseq` entries
+(no array when no sequence has one), default weights. -/
+
+/-- **SELEX round trip with annotation lines, text mode** -/
+theorem selex_roundtrip_ann_text (m : Msa) (h : SelexAnnTextWritable m) :
+    selexRead (selexCfg none) (splitLines (selexWrite none m)) = (.ok (selexProject (selexCfg none) m), []) :=
+  selexRead_write_ann_text m h
+
+/-- **SELEX round trip with annotation lines, digital mode** (amino, DNA, RNA) -/
+theorem selex_roundtrip_ann_digital (a : Abc) (ha : a = abcAmino ∨ a = abcDna ∨ a = abcRna) (m : Msa)
+    (h : SelexAnnDigitalWritable a m) :
+    selexRead (selexCfg (some a)) (splitLines (selexWrite (some a) m)) = (.ok (selexProject (selexCfg (some a)) m), []) :=
+  selexRead_write_ann_digital a (selexDigSymOk_of a ha) m h
+
+/-- the general form both are instances of -/
+theorem selex_roundtrip_ann (abc : Option Abc) (cfg : Cfg) (enc : UInt8 → UInt8) (txt : Nat → Bytes) (m : Msa)
+    (h : SelexAnnWritable abc cfg enc txt m) (name_lf : ∀ i, i < m.nseq → (10 : UInt8) ∉ m.names.getD i []) :
+    selexRead cfg (splitLines (selexWrite abc m)) = (.ok (selexProject cfg m), []) :=
+  selexRead_write_ann abc cfg enc txt m h name_lf
+
+/-- library-written annotated SELEX output is accepted, holds exactly one alignment (the next read is eslEOF), and the
+    alignment read back is well formed -/
+theorem selex_ann_write_accepted (m : Msa) (h : SelexAnnTextWritable m) :
+    (∃ m', (selexRead (selexCfg none) (splitLines (selexWrite none m))).1 = .ok m' ∧ m'.wellFormed = true) ∧
+    (selexRead (selexCfg none) (selexRead (selexCfg none) (splitLines (selexWrite none m))).2).1 = .eof := by
+  have hr := selex_roundtrip_ann_text m h
+  have hg := selexRead_good (selexCfg none) ⟨by decide +kernel, by decide +kernel⟩ (by decide +kernel) (splitLines (selexWrite none m))
+  rw [hr] at hg
+  refine ⟨⟨_, by rw [hr], hg⟩, ?_⟩
+  rw [hr]
+  simp [selexRead, runLines, selexFinish, selexFinal]
+
+theorem selex_ann_write_accepted_digital (a : Abc) (ha : a = abcAmino ∨ a = abcDna ∨ a = abcRna) (m : Msa)
+    (h : SelexAnnDigitalWritable a m) :
+    ∃ m', (selexRead (selexCfg (some a)) (splitLines (selexWrite (some a) m))).1 = .ok m' ∧ m'.wellFormed = true := by
+  have hr := selex_roundtrip_ann_digital a ha m h
+  have hv : (selexCfg (some a)).valid ∧ (selexCfg (some a)).selexOk = true := by
+    rcases ha with h | h | h <;> subst h
+    · exact ⟨⟨by decide +kernel, by decide +kernel⟩, by decide +kernel⟩
+    · exact ⟨⟨by decide +kernel, by decide +kernel⟩, by decide +kernel⟩
+    · exact ⟨⟨by decide +kernel, by decide +kernel⟩, by decide +kernel⟩
+  have hg := selexRead_good (selexCfg (some a)) hv.1 hv.2 (splitLines (selexWrite (some a) m))
+  rw [hr] at hg
+  exact ⟨_, by rw [hr], hg⟩
+
+/-- **re-writing the re-read alignment reproduces the same bytes**, annotation lines included (text mode) -/
+theorem selex_ann_rewrite_same (m : Msa) (h : SelexAnnTextWritable m) :
+    selexWrite none (selexProject (selexCfg none) m) = selexWrite none m :=
+  selexWrite_project_ann_text m h
+
+/-- … and in digital mode (amino, DNA, RNA) -/
+theorem selex_ann_rewrite_same_digital (a : Abc) (m : Msa) (h : SelexAnnDigitalWritable a m) :
+    selexWrite (some a) (selexProject (selexCfg (some a)) m) = selexWrite (some a) m :=
+  selexWrite_project_ann_digital a m h
+
+/-- what SELEX preserves of an annotated alignment: names, width, the aligned rows, `rf`, `ssCons`, `mm`, and for every
+    sequence its `ss` and `sa` string (or their absence), exactly -/
+theorem selex_ann_preserves (m : Msa) (h : SelexAnnTextWritable m) :
+    (selexProject (selexCfg none) m).names = m.names ∧ (selexProject (selexCfg none) m).alen = m.alen ∧
+    (∀ i, i < m.nseq → (selexProject (selexCfg none) m).aseq.getD i [] = m.aseq.getD i []) ∧
+    (selexProject (selexCfg none) m).rf = m.rf ∧ (selexProject (selexCfg none) m).ssCons = m.ssCons ∧
+    (selexProject (selexCfg none) m).mm = m.mm ∧
+    (∀ i, i < m.nseq → optRow (selexProject (selexCfg none) m).ss i = optRow m.ss i) ∧
+    (∀ i, i < m.nseq → optRow (selexProject (selexCfg none) m).sa i = optRow m.sa i) := by
+  refine ⟨rfl, rfl, ?_, rfl, rfl, rfl, fun i hi => selexRowsProj_optRow m.nseq m.ss i hi,
+    fun i hi => selexRowsProj_optRow m.nseq m.sa i hi⟩
+  intro i hi
+  simp [selexProject, selexCfg, Cfg.digital, Msa.stored, h.dig, List.getD_eq_getElem?_getD, hi]
+
+/-! ### non-vacuity: 2 sequences (one name shorter than the `#=XX` tags), 61 columns (two blocks: 60 + 1), `#=CS` and `#=RF`
+    present, `#=MM` absent, `#=SS` on the first sequence only, `#=SA` on the second only -/
+
+def exSlxAnn2 : Msa :=
+  { alen := 61, names := [[97], [98, 98, 98, 98, 98, 98]],
+    aseq := [List.replicate 30 65 ++ [45] ++ List.replicate 30 67, [46] ++ List.replicate 59 71 ++ [45]],
+    wgt := [.dflt, .dflt],
+    rf := some (List.replicate 30 120 ++ [46] ++ List.replicate 30 120),
+    ssCons := some (List.replicate 30 60 ++ [46] ++ List.replicate 30 62),
+    ss := some [some (List.replicate 30 60 ++ [95] ++ List.replicate 30 62), none],
+    sa := some [none, some (List.replicate 60 49 ++ [57])] }
+
+theorem exSlxAnn2_ann : SelexAnn exSlxAnn2 := by constructor <;> decide +kernel
+
+theorem exSlxAnn2_writable : SelexAnnTextWritable exSlxAnn2 :=
+  { dig := rfl, ann := exSlxAnn2_ann, n1 := by decide, alen1 := by decide
+    name_ok := by unfold selexNameOk sqTagOk nameOk; decide +kernel
+    row_ok := by decide +kernel }
+
+example : (blockStarts exSlxAnn2.alen selexCpl).length = 2 := by decide +kernel
+example : selexRead (selexCfg none) (splitLines (selexWrite none exSlxAnn2))
+    = (.ok (selexProject (selexCfg none) exSlxAnn2), []) := by decide +kernel
+example : selexProject (selexCfg none) exSlxAnn2 = exSlxAnn2 := by decide +kernel
+example : selexWrite none (selexProject (selexCfg none) exSlxAnn2) = selexWrite none exSlxAnn2 := by decide +kernel
+example : (selexLines none exSlxAnn2).length = 13 := by decide +kernel
+
+/-- the same digitised with the DNA alphabet (A=0 C=1 G=2 gap=4 missing=17) -/
+def exSlxAnn2Dna : Msa :=
+  { digital := true, kp := 18, alen := 61, names := exSlxAnn2.names,
+    ax := [255 :: (List.replicate 30 0 ++ [4] ++ List.replicate 30 1) ++ [255], 255 :: ([17] ++ List.replicate 59 2 ++ [4]) ++ [255]],
+    wgt := [.dflt, .dflt], rf := exSlxAnn2.rf, ssCons := exSlxAnn2.ssCons, ss := exSlxAnn2.ss, sa := exSlxAnn2.sa }
+
+theorem exSlxAnn2Dna_writable : SelexAnnDigitalWritable abcDna exSlxAnn2Dna :=
+  { dig := rfl, ann := by constructor <;> decide +kernel, n1 := by decide, alen1 := by decide
+    name_ok := by unfold selexNameOk sqTagOk nameOk; decide +kernel
+    row_ok := by decide +kernel }
+
+example : selexRead (selexCfg (some abcDna)) (splitLines (selexWrite (some abcDna) exSlxAnn2Dna))
+    = (.ok (selexProject (selexCfg (some abcDna)) exSlxAnn2Dna), []) := by decide +kernel
+example : (selexProject (selexCfg (some abcDna)) exSlxAnn2Dna).ss = exSlxAnn2Dna.ss := by decide +kernel
+
+/-- the white-space condition is needed: a `#=RF` string that begins with a blank comes back beginning with `.` -/
+example : (selexRead (selexCfg none) (splitLines (selexWrite none
+    { alen := 2, names := [[97]], aseq := [[65, 67]], wgt := [.dflt], rf := some [32, 120] }))).1
+    = .ok { alen := 2, names := [[97]], aseq := [[65, 67]], wgt := [.dflt], rf := some [46, 120] } := by decide +kernel
+
+/-! ## ===== SELEX-ANN — end ===== -/
+
+/-! ## ===== PSI-DIGITAL — begin ===== -/
+
+/-- library-written Clustal is accepted in digital mode too (amino, DNA, RNA), holds exactly one alignment (the next read
+    is eslEOF), and the alignment read back is well formed -/
+theorem clustal_write_accepted_digital (like : Bool) (a : Abc) (ha : a = abcAmino ∨ a = abcDna ∨ a = abcRna) (m : Msa)
+    (h : ClustalDigitalWritable a m) :
+    (∃ m', (clustalRead like (clustalCfg (some a)) (splitLines (clustalWrite like (some a) m))).1 = .ok m' ∧ m'.wellFormed = true) ∧
+    (clustalRead like (clustalCfg (some a))
+      (clustalRead like (clustalCfg (some a)) (splitLines (clustalWrite like (some a) m))).2).1 = .eof := by
+  have hr := clustal_roundtrip_digital like a ha m h
+  have hv : (clustalCfg (some a)).valid := by
+    rcases ha with h | h | h <;> subst h
+    · exact ⟨by decide +kernel, by decide +kernel⟩
+    · exact ⟨by decide +kernel, by decide +kernel⟩
+    · exact ⟨by decide +kernel, by decide +kernel⟩
+  have hg := clustalRead_good like (clustalCfg (some a)) hv (splitLines (clustalWrite like (some a) m))
+  rw [hr] at hg
+  refine ⟨⟨_, by rw [hr], hg⟩, ?_⟩
+  rw [hr]
+  rfl
+
+/-- library-written PSI-BLAST is accepted in digital mode too (amino, DNA, RNA), holds exactly one alignment, and the
+    alignment read back is well formed -/
+theorem psiblast_write_accepted_digital (a : Abc) (ha : a = abcAmino ∨ a = abcDna ∨ a = abcRna) (m : Msa)
+    (h : PsiblastDigitalWritable a m) :
+    (∃ m', (psiblastRead (psiblastCfg (some a)) (splitLines (psiblastWrite (some a) m))).1 = .ok m' ∧ m'.wellFormed = true) ∧
+    (psiblastRead (psiblastCfg (some a))
+      (psiblastRead (psiblastCfg (some a)) (splitLines (psiblastWrite (some a) m))).2).1 = .eof := by
+  have hr := psiblast_roundtrip_digital a ha m h
+  have hv : (psiblastCfg (some a)).valid := by
+    rcases ha with h | h | h <;> subst h
+    · exact ⟨by decide +kernel, by decide +kernel⟩
+    · exact ⟨by decide +kernel, by decide +kernel⟩
+    · exact ⟨by decide +kernel, by decide +kernel⟩
+  have hg := psiblastRead_good (psiblastCfg (some a)) hv (splitLines (psiblastWrite (some a) m))
+  rw [hr] at hg
+  refine ⟨⟨_, by rw [hr], hg⟩, ?_⟩
+  rw [hr]
+  rfl
+
+theorem psiDigResOk_of (a : Abc) (ha : a = abcAmino ∨ a = abcDna ∨ a = abcRna) : psiDigResOk a = true := by
+  rcases ha with h | h | h <;> subst h
+  · exact psiDigResOk_amino
+  · exact psiDigResOk_dna
+  · exact psiDigResOk_rna
+
+/-- **re-writing the re-read alignment reproduces the same bytes**, digital mode (amino, DNA, RNA): the re-read alignment
+    carries the RF line `psiRf (psiDigTxt a m) m` the original need not have, and the written characters coincide -/
+theorem psiblast_rewrite_same_digital (a : Abc) (ha : a = abcAmino ∨ a = abcDna ∨ a = abcRna) (m : Msa)
+    (h : PsiblastDigitalWritable a m) :
+    ∃ m', (psiblastRead (psiblastCfg (some a)) (splitLines (psiblastWrite (some a) m))).1 = .ok m' ∧
+      psiblastWrite (some a) m' = psiblastWrite (some a) m :=
+  ⟨_, by rw [psiblast_roundtrip_digital a ha m h],
+    psiblastWrite_project_digital a (psiDigSymOk_of a ha) (psiDigResOk_of a ha) m h⟩
+
+/-- non-vacuity: the two-block DNA example (no RF line of its own) is written the same after the round trip -/
+example : psiblastWrite (some abcDna) (psiblastProject (psiblastCfg (some abcDna)) (psiRf (psiDigTxt abcDna exPsiDna) exPsiDna) exPsiDna)
+    = psiblastWrite (some abcDna) exPsiDna := by decide +kernel
+
+/-! ## ===== PSI-DIGITAL — end ===== -/
+
+/-! ## ===== AUTODETECT — begin =====
+
+Autodetection of library-written output (`esl_msafile_GuessFileFormat`, model `guessFormat` of the C01 open path;
+`openBytes .auto …` is `msafile_OpenBuffer` with `format = eslMSAFILE_UNKNOWN`).  Stockholm/Pfam, Clustal, Clustal-like
+and aligned FASTA are recognised from their first line, for EVERY alignment.  Two honest negatives, both documented
+behaviour of the library: Pfam output is detected as Stockholm (same reader) unless the file is called `*.pfam`, and A2M
+output is detected as aligned FASTA unless the file is called `*.a2m` (theorem `a2m_written_detected_as_afa`).  SELEX and
+PSI-BLAST (deep check `msafile_check_selex`) and PHYLIP (`esl_msafile_phylip_CheckFileFormat`, documented as possibly
+ambiguous) are exercised by the harness monitors only. -/
+
+/-- Stockholm AND Pfam output is detected as Stockholm when the buffer has no file name (memory, stdin), whatever the
+    alignment holds: the first line is `# STOCKHOLM 1.0` -/
+theorem stockholm_autodetect (pfam : Bool) (abc : Option Abc) (m : Msa) :
+    guessFormat none (splitLines (stockholmWrite pfam abc m)) = .ok (.stockholm, 0) := by
+  rw [guess_stockholmWrite, fmtBySuffix_none]; rfl
+
+/-- … and as Pfam when the file is called `*.pfam` -/
+theorem pfam_autodetect_suffix (pfam : Bool) (abc : Option Abc) (m : Msa) :
+    guessFormat (some (str "x.pfam")) (splitLines (stockholmWrite pfam abc m)) = .ok (.pfam, 0) := by
+  rw [guess_stockholmWrite, fmtBySuffix_pfam]; rfl
+
+/-- Clustal output is detected as Clustal, Clustal-like output as Clustal-like, whatever the file name and the alignment -/
+theorem clustal_autodetect (fname : Option Bytes) (abc : Option Abc) (m : Msa) :
+    guessFormat fname (splitLines (clustalWrite false abc m)) = .ok (.clustal, 0) :=
+  guess_clustalWrite fname false abc m
+
+theorem clustallike_autodetect (fname : Option Bytes) (abc : Option Abc) (m : Msa) :
+    guessFormat fname (splitLines (clustalWrite true abc m)) = .ok (.clustallike, 0) :=
+  guess_clustalWrite fname true abc m
+
+/-- aligned FASTA output (≥ 1 sequence) is detected as aligned FASTA -/
+theorem afa_autodetect (abc : Option Abc) (m : Msa) (h1 : 1 ≤ m.nseq) (hl : lineOk (afaHeader m 0)) :
+    guessFormat none (splitLines (afaWrite abc m)) = .ok (.afa, 0) := by
+  rw [guess_afaWrite none abc m h1 hl, fmtBySuffix_none]; rfl
+
+/-- NOT selected: A2M output in a buffer without a file name is detected as aligned FASTA (the two begin alike and
+    `esl_msafile_GuessFileFormat` decides for A2M only on the suffix `.a2m`) -/
+theorem a2m_written_detected_as_afa (abc : Option Abc) (m : Msa) (h1 : 1 ≤ m.nseq) (hl : lineOk (a2mHeader m 0)) :
+    guessFormat none (splitLines (a2mWrite abc m)) = .ok (.afa, 0) := by
+  rw [guess_a2mWrite none abc m h1 hl, fmtBySuffix_none]; rfl
+
+/-- … and as A2M when the file is called `*.a2m` -/
+theorem a2m_autodetect_suffix (abc : Option Abc) (m : Msa) (h1 : 1 ≤ m.nseq) (hl : lineOk (a2mHeader m 0)) :
+    guessFormat (some (str "x.a2m")) (splitLines (a2mWrite abc m)) = .ok (.a2m, 0) := by
+  rw [guess_a2mWrite _ abc m h1 hl, fmtBySuffix_a2m]; rfl
+
+/-- **write, open with the format autodetected (text mode), read**: Stockholm and Pfam -/
+theorem stockholm_autodetect_roundtrip_text (pfam : Bool) (m : Msa) (h : StoTextWritable m) :
+    openBytes .auto .text none (stockholmWrite pfam none m) = .ok ⟨.stockholm, none, 0⟩ ∧
+    Opened.read ⟨.stockholm, none, 0⟩ (splitLines (stockholmWrite pfam none m)) = (.ok (stoProject (stockholmCfg none) m), []) := by
+  refine ⟨?_, stoRead_write pfam none (stockholmCfg none) id _ m (stoTextWritable_writable m h)⟩
+  simp only [openBytes, openModel, openFmt, stockholm_autodetect, openAbc]
+
+/-- … and in digital mode with the alphabet given by the caller (`*byp_abc != NULL`) -/
+theorem stockholm_autodetect_roundtrip_digital (pfam : Bool) (t : AbcType) (m : Msa) (h : StoDigitalWritable (abcOfType t) m) :
+    openBytes .auto (.given t) none (stockholmWrite pfam (some (abcOfType t)) m) = .ok ⟨.stockholm, some t, 0⟩ ∧
+    Opened.read ⟨.stockholm, some t, 0⟩ (splitLines (stockholmWrite pfam (some (abcOfType t)) m))
+      = (.ok (stoProject (stockholmCfg (some (abcOfType t))) m), []) := by
+  have ha : abcOfType t = abcAmino ∨ abcOfType t = abcDna ∨ abcOfType t = abcRna := by cases t <;> simp [abcOfType]
+  refine ⟨?_, stoRead_write pfam _ (stockholmCfg (some (abcOfType t))) (stoEnc _) _ m
+    (stoDigitalWritable_writable _ (stoDigSymOk_of _ ha) m h)⟩
+  simp only [openBytes, openModel, openFmt, stockholm_autodetect, openAbc]
+
+/-- Clustal and Clustal-like, text mode -/
+theorem clustal_autodetect_roundtrip_text (like : Bool) (m : Msa) (h : ClustalTextWritable m) :
+    openBytes .auto .text none (clustalWrite like none m) = .ok ⟨if like then .clustallike else .clustal, none, 0⟩ ∧
+    Opened.read ⟨if like then .clustallike else .clustal, none, 0⟩ (splitLines (clustalWrite like none m))
+      = (.ok (clustalProject (clustalCfg none) m), []) := by
+  have hr := clustalRead_write like none (clustalCfg none) id _ m (clustalTextWritable_writable m h)
+  constructor
+  · simp only [openBytes, openModel, openFmt, guess_clustalWrite, openAbc]
+  · cases like <;> exact hr
+
+/-- Clustal and Clustal-like, digital mode with the alphabet given by the caller -/
+theorem clustal_autodetect_roundtrip_digital (like : Bool) (t : AbcType) (m : Msa) (h : ClustalDigitalWritable (abcOfType t) m) :
+    openBytes .auto (.given t) none (clustalWrite like (some (abcOfType t)) m)
+      = .ok ⟨if like then .clustallike else .clustal, some t, 0⟩ ∧
+    Opened.read ⟨if like then .clustallike else .clustal, some t, 0⟩ (splitLines (clustalWrite like (some (abcOfType t)) m))
+      = (.ok (clustalProject (clustalCfg (some (abcOfType t))) m), []) := by
+  have ha : abcOfType t = abcAmino ∨ abcOfType t = abcDna ∨ abcOfType t = abcRna := by cases t <;> simp [abcOfType]
+  have hr := clustalRead_write like _ (clustalCfg (some (abcOfType t))) (cluEnc _) _ m
+    (clustalDigitalWritable_writable _ (cluDigSymOk_of _ ha) m h)
+  constructor
+  · simp only [openBytes, openModel, openFmt, guess_clustalWrite, openAbc]
+  · cases like <;> exact hr
+
+/-- aligned FASTA, text mode -/
+theorem afa_autodetect_roundtrip_text (m : Msa) (h : AfaTextWritable m) :
+    openBytes .auto .text none (afaWrite none m) = .ok ⟨.afa, none, 0⟩ ∧
+    Opened.read ⟨.afa, none, 0⟩ (splitLines (afaWrite none m)) = (.ok (afaProject (afaCfg none) m), []) := by
+  refine ⟨?_, afa_roundtrip_text m h⟩
+  simp only [openBytes, openModel, openFmt, afa_autodetect none m h.n1 (h.hdr_line 0 h.n1), openAbc]
+
+/-- aligned FASTA, digital mode with the alphabet given by the caller -/
+theorem afa_autodetect_roundtrip_digital (t : AbcType) (m : Msa) (h : AfaDigitalWritable (abcOfType t) m) :
+    openBytes .auto (.given t) none (afaWrite (some (abcOfType t)) m) = .ok ⟨.afa, some t, 0⟩ ∧
+    Opened.read ⟨.afa, some t, 0⟩ (splitLines (afaWrite (some (abcOfType t)) m))
+      = (.ok (afaProject (afaCfg (some (abcOfType t))) m), []) := by
+  have ha : abcOfType t = abcAmino ∨ abcOfType t = abcDna ∨ abcOfType t = abcRna := by cases t <;> simp [abcOfType]
+  refine ⟨?_, afa_roundtrip_digital _ ha m h⟩
+  simp only [openBytes, openModel, openFmt, afa_autodetect _ m h.n1 (h.hdr_line 0 h.n1), openAbc]
+
+/-! non-vacuity: the examples of the sections above, evaluated -/
+example : guessFormat none (splitLines (stockholmWrite false none exStoAnn)) = .ok (.stockholm, 0) := by decide +kernel
+example : guessFormat none (splitLines (clustalWrite true none exClu)) = .ok (.clustallike, 0) := by decide +kernel
+example : guessFormat none (splitLines (afaWrite none exMsa)) = .ok (.afa, 0) := by decide +kernel
+example : guessFormat none (splitLines (a2mWrite none exA2m)) = .ok (.afa, 0) := by decide +kernel
+example : openBytes .auto .guess none (afaWrite none exMsa) = .enoalphabet := by decide +kernel
+/-- SELEX and PSI-BLAST output of the example alignments IS detected (evaluation only; PSI-BLAST output
+    without a `.pb` suffix is SELEX to the autodetector: the two are told apart by the suffix alone) -/
+example : guessFormat none (splitLines (selexWrite none exSlx)) = .ok (.selex, 0) := by decide +kernel
+example : guessFormat none (splitLines (psiblastWrite none exPsi)) = .ok (.selex, 0) := by decide +kernel
+example : guessFormat (some (str "x.pb")) (splitLines (psiblastWrite none exPsi)) = .ok (.psiblast, 0) := by decide +kernel
+
+/-! ## ===== AUTODETECT — end ===== -/
 
 end EaselModel.Props.C03
